@@ -249,7 +249,8 @@ def r35_3(ctx, m):
     adds = [c for c in ast.walk(loop) if isinstance(c, ast.Call) and call_name(c) == "special_add_at" and len(c.args) == 4]
     pairs_adj = set()
     for c in adds:
-        pairs_adj.add((_norm(c.args[2]), _norm(c.args[3])))
+        from ..terms import canon
+        pairs_adj.add((_norm(c.args[2]), canon(c.args[3])))
     # forward: xnew = v[idx + (B,)] * W1 ; xnew += v[idx + (B+1,)] * W2
     pairs_fwd = set()
     vname = None
@@ -262,10 +263,14 @@ def r35_3(ctx, m):
             val = st.value
         if isinstance(st, ast.AugAssign) and isinstance(st.op, ast.Add) and isinstance(st.value, ast.BinOp) and isinstance(st.value.op, ast.Mult):
             val = st.value
-        if val is not None and isinstance(val.left, ast.Subscript) and src(val.left.value) == vname:
-            sl = val.left.slice
-            if isinstance(sl, ast.BinOp) and isinstance(sl.right, ast.Tuple) and len(sl.right.elts) == 1:
-                pairs_fwd.add((_norm(sl.right.elts[0]), _norm(ast.BinOp(left=ast.Name(id=vname, ctx=ast.Load()), op=ast.Mult(), right=val.right))))
+        if val is not None:
+            subs = [x_ for x_ in (val.left, val.right) if isinstance(x_, ast.Subscript) and src(x_.value) == vname]
+            if len(subs) == 1:
+                other = val.right if subs[0] is val.left else val.left
+                sl = subs[0].slice
+                if isinstance(sl, ast.BinOp) and isinstance(sl.right, ast.Tuple) and len(sl.right.elts) == 1:
+                    from ..terms import canon
+                    pairs_fwd.add((_norm(sl.right.elts[0]), canon(ast.BinOp(left=ast.Name(id=vname, ctx=ast.Load()), op=ast.Mult(), right=other))))
     key = f"{ap.key}::forward and adjoint use the same (index, weight) pairs"
     if not pairs_adj or not pairs_fwd or wname is None:
         ctx.und("R35.3", key, f"forward {sorted(pairs_fwd)}, adjoint {sorted(pairs_adj)}", ap)
@@ -274,8 +279,8 @@ def r35_3(ctx, m):
         idxs = sorted(p[0] for p in pairs_fwd)
         wts = {p[0]: p[1] for p in pairs_fwd}
         base = min(idxs, key=len)
-        okk = len(idxs) == 2 and set(idxs) == {base, base + "+1"} and wts.get(base) in (f"{vname}*(1.0-{wname})", f"{vname}*(1.-{wname})", f"{vname}*(1-{wname})") \
-            and wts.get(base + "+1") == f"{vname}*{wname}"
+        okk = len(idxs) == 2 and set(idxs) == {base, base + "+1"} and wts.get(base) in tuple(canon(w_) for w_ in (f"{vname}*(1.0-{wname})", f"{vname}*(1-{wname})")) \
+            and wts.get(base + "+1") == canon(f"{vname}*{wname}")
         ctx.check("R35.3", f"{ap.key}::weights are (1-w) at b and w at b+1", okk, str(wts), ap)
     # constructor: clamp and fraction
     body = " ".join(_norm(st) for st in ast.walk(ini.node) if isinstance(st, ast.Assign))
@@ -296,7 +301,7 @@ def r35_3(ctx, m):
         if len(tmpn) == 1 and len(bk) == 1 and len(fk) == 1:
             dl = src(loops_i[-1].target)
             okk = asg[bk[0]] == f"np.minimum(dom.shape[{dl}]-2,{tmpn[0]}.astype(np.int64))" and asg[fk[0]] == f"{tmpn[0]}-{bk[0]}" \
-                and asg[tmpn[0]].startswith(f"np.arange({ini.params()[2]}[{dl}])*")
+                and (asg[tmpn[0]].startswith(f"np.arange({ini.params()[2]}[{dl}])*") or asg[tmpn[0]].endswith(f"*np.arange({ini.params()[2]}[{dl}])"))
             okk = okk and wattr is not None and fk[0].startswith(f"self.{wattr}[")
     ctx.check("R35.3", f"{ini.key}::b = min(shape-2, floor(position)), w = position - b, stored in the attributes apply reads", okk, det, ini)
     guard = [st for st in walk_no_nested(ini.node) if isinstance(st, ast.If) and "zip(" in src(st.test) and any(isinstance(x, ast.Raise) for x in st.body)]
